@@ -106,6 +106,8 @@ class Check:
             self.tool_errors.append("trace of recorded sessions was not accepted by TraceSession:\n" + tlc_error_text(r, 25))
             return
         self.traces_validated += len(sessions)
+        self.states += r["states"]
+        self.transitions += r["transitions"]
         self.extra["trace_events_validated"] = self.extra.get("trace_events_validated", 0) + r["states"] - 1
         tlc_viol = collections.defaultdict(set)
         for tag, p in r["prints"]:
